@@ -553,11 +553,42 @@ func Run(dir, tier string, seed int64) error {
 			codec(e, b64, "PGEvPg==", "unknown-encoding")
 		}
 	}
+	// the same at the endpoints: a request declaring an unrecognised SAMLEncoding is refused on every binding
+	{
+		env := mkEnv("benign")
+		st := env.Storage
+		st.Register("app-1", sso.BaseSP(nil, true))
+		ar := `<samlp:AuthnRequest xmlns:samlp="urn:oasis:names:tc:SAML:2.0:protocol" xmlns:saml="urn:oasis:names:tc:SAML:2.0:assertion" ID="_enc" Version="2.0" IssueInstant="` + idp.NowInstant() + `"><saml:Issuer>` + sso.SPEntity + `</saml:Issuer></samlp:AuthnRequest>`
+		lo := `<samlp:LogoutRequest xmlns:samlp="urn:oasis:names:tc:SAML:2.0:protocol" xmlns:saml="urn:oasis:names:tc:SAML:2.0:assertion" ID="_enc" Version="2.0"><saml:Issuer>` + sso.SPEntity + `</saml:Issuer><saml:NameID>u</saml:NameID></samlp:LogoutRequest>`
+		for _, e := range []string{"x", "none", "urn:oasis:names:tc:SAML:2.0:bindings:URL-Encoding:GZIP", " ", samlxml.EncodingDeflate + " ", strings.ToLower(samlxml.EncodingDeflate)} {
+			for _, method := range []string{http.MethodPost, http.MethodGet} {
+				for _, ep := range []struct{ path, doc string }{{"/SSO", ar}, {"/SLO", lo}} {
+					for _, msg := range []string{idp.B64([]byte(ep.doc)), idp.DeflateB64([]byte(ep.doc))} {
+						params := []idp.Param{idp.Q("SAMLRequest", msg), idp.Q("SAMLEncoding", e)}
+						spec := idp.ReqSpec{Method: method, Path: ep.path}
+						if method == http.MethodPost {
+							spec.Body = params
+						} else {
+							spec.Query = params
+						}
+						st.ResetLog()
+						rep := env.Do(spec.HTTP())
+						run.Res.Evaluations++
+						run.Count("codec=endpoint-unknown-encoding")
+						if st.CountOp("CreateAuthRequest") > 0 || strings.HasSuffix(rep.Status, ":Success") {
+							fail("unknown-encoding-passed-through", fmt.Sprintf("%s %s with SAMLEncoding=%q was accepted (%s %d %s)", method, ep.path, e, rep.Kind, rep.Code, rep.Status), map[string]interface{}{"request": spec})
+						}
+						id++
+					}
+				}
+			}
+		}
+	}
 	for _, m := range []string{"", "=", "A", "AA", "AAA", "AAAA", "AA==", "AA=", "A===", "AAAA\n", "AA\r\nAA", "AAAA AAAA", "AAAA-_", "AAAA*", "////", "AAAAA", "AA==AA==", "\x00"} {
 		codec(samlxml.EncodingDeflate, true, m, "malformed-base64-or-deflate")
 		codec("", true, m, "malformed-base64")
 	}
-	run.Res.Rule = "documents: every message kind the IdP emits (success Response over POST and Redirect, failed Response from callback and from SSO incl. status messages that repeat decoder / storage error text, LogoutResponse success and failed, SOAP attribute response, metadata) produced by the real endpoints with each of 34 hostile strings (incl. one of 2 kB, 20 kB in the thorough tier) (XML metacharacters, CDATA and comment delimiters, closing tags, controls, NUL, CR/LF/TAB, U+FFFE/U+FFFF, surrogates and other invalid UTF-8, supplementary planes) in every data position that can carry it (user attributes and custom attribute names/formats/values, NameID, request ID, ACS URL, organisation and contact data; request IDs only for XML-legal strings), plus the library's Marshal on 7 message types with every string field hostile to depth 4; each document is compared byte for byte with the Coq print of its raw token tree (so the lexer theorems apply to the real bytes), parsed by a generic strict parser (single well-formed document, same element/attribute structure as with benign data, every value returned up to U+FFFD replacement) and by the library decoders (DecodeResponse / Unmarshal: fields equal). escape: xml.EscapeText vs the model on hostile and random byte strings. codec: DeflateAndBase64 then InflateAndDecode on random, repetitive and document inputs (0..1000 bytes; sizes around the cap are C14's), base64 layer vs model, 19 unrecognised encoding identifiers (near misses: whitespace-only, padded, case variants, prefixes) x b64 on/off, malformed base64/DEFLATE. distinct = (flow or codec class, size class)."
+	run.Res.Rule = "documents: every message kind the IdP emits (success Response over POST and Redirect, failed Response from callback and from SSO incl. status messages that repeat decoder / storage error text, LogoutResponse success and failed, SOAP attribute response, metadata) produced by the real endpoints with each of 34 hostile strings (incl. one of 2 kB, 20 kB in the thorough tier) (XML metacharacters, CDATA and comment delimiters, closing tags, controls, NUL, CR/LF/TAB, U+FFFE/U+FFFF, surrogates and other invalid UTF-8, supplementary planes) in every data position that can carry it (user attributes and custom attribute names/formats/values, NameID, request ID, ACS URL, organisation and contact data; request IDs only for XML-legal strings), plus the library's Marshal on 7 message types with every string field hostile to depth 4; each document is compared byte for byte with the Coq print of its raw token tree (so the lexer theorems apply to the real bytes), parsed by a generic strict parser (single well-formed document, same element/attribute structure as with benign data, every value returned up to U+FFFD replacement) and by the library decoders (DecodeResponse / Unmarshal: fields equal). escape: xml.EscapeText vs the model on hostile and random byte strings. codec: DeflateAndBase64 then InflateAndDecode on random, repetitive and document inputs (0..1000 bytes; sizes around the cap are C14's), base64 layer vs model, 19 unrecognised encoding identifiers (near misses: whitespace-only, padded, case variants, prefixes) x b64 on/off, malformed base64/DEFLATE; at the endpoints: /SSO and /SLO, GET and POST, plain and deflated messages declaring 6 unrecognised SAMLEncoding values must be refused. distinct = (flow or codec class, size class)."
 	return run.Finish()
 }
 
